@@ -12,7 +12,7 @@ Lemma encode_message_acc c st m b st' : encode_message c st m = Ok (b, st') ->
   es_datasize st' = wrap 32 (es_datasize st + len b) /\ es_crc st' = write (es_crc st) b.
 Proof.
   unfold encode_message.
-  destruct (if e_compressed c then compress_timestamp (es_tsref st) m else (None, es_tsref st)) as [cmp tsref].
+  destruct (if e_compressed c then compress_timestamp (es_tsref st) (es_lastts st) m else (None, es_tsref st, es_lastts st)) as [[cmp tsref] lastts].
   destruct (match cmp with Some (h, fs) => (h, fs, true) | None => (MesgNormalHeaderMask, m_fields m, false) end) as [[hdr fs] compressed].
   destruct (lru_put _ _) as [[local isnew] lru'].
   destruct (marshal_message _ _) as [mb|]; [|discriminate].
